@@ -235,6 +235,9 @@ class GeckoAsyncSpaMan(ABC, AsyncTasks):
 
     async def __aexit__(self, *exc_info) -> None:
         self.cancel_key_tasks("SPAMAN")
+        # Let go of any connection so that its endpoint is closed and its
+        # facade torn down before the manager goes away
+        await self.async_reset()
         await self._handle_event(GeckoSpaEvent.SPA_MAN_EXIT, exc_info=exc_info)
         await AsyncTasks.__aexit__(self, exc_info)
 
